@@ -137,6 +137,11 @@ class EagerBatcherInit(Unit):
 
 
 UNITS = [EagerBatcherIter, EagerBatcherInit]
+# the instream may be a ResponsiveQueue: "waits no longer than told" then rests on its get(timeout=t) giving up after t in total (0: at once)
+from contracts.c17 import GetPutUnit, GetPutUnitNoTimeout, RQGet      # noqa: E402
+UNITS += [GetPutUnit, GetPutUnitNoTimeout, RQGet]
+# the battery takes half a second and covers what the contracts ASSUME (elements with a well-behaved ==): always run
+ALWAYS_RUN_SCENARIOS = True
 
 SCENARIOS = [('', 'replay/scenarios/c19_virtual_clock.py')]
 THOROUGH_SCENARIOS = [('', 'replay/scenarios/c19_virtual_clock.py', (s,), 300) for s in (1, 2, 3, 4, 5)]
